@@ -12,7 +12,15 @@ use std::time::{Duration, Instant};
 
 use serde_json::{json, Value};
 
-pub const VERIF: &str = "/verif";
+/// /verif, unless VERIF_HOME points at a scratch copy (used only by the seeded-change matrix tool)
+pub fn verif_home() -> String {
+	std::env::var("VERIF_HOME").unwrap_or_else(|_| "/verif".to_string())
+}
+
+/// /repo, unless VERIF_REPO points at a scratch copy
+pub fn repo_home() -> String {
+	std::env::var("VERIF_REPO").unwrap_or_else(|_| "/repo".to_string())
+}
 
 // ------------------------------------------------------------------ small helpers
 
@@ -574,7 +582,7 @@ pub struct Known {
 }
 
 pub fn load_known() -> Vec<Known> {
-	let path = format!("{}/known_findings.json", VERIF);
+	let path = format!("{}/known_findings.json", verif_home());
 	let txt = match std::fs::read_to_string(&path) {
 		Ok(t) => t,
 		Err(_) => return vec![],
@@ -637,7 +645,7 @@ fn finish_inner(cx: &Ctx, early: bool) -> i32 {
 		if !reported.insert(v.key.clone()) {
 			continue;
 		}
-		let dir = format!("{}/replays/{}", VERIF, cx.prop);
+		let dir = format!("{}/replays/{}", verif_home(), cx.prop);
 		let _ = std::fs::create_dir_all(&dir);
 		let body = serde_json::to_string_pretty(art).unwrap();
 		let path = format!("{}/{:016x}.json", dir, fnv(body.as_bytes()));
@@ -740,7 +748,7 @@ fn write_evidence(cx: &Ctx, violations: u64, known_hits: &BTreeMap<String, (Stri
 		"wall_s": cx.start.elapsed().as_secs_f64(),
 		"violations": violations,
 	});
-	let dir = format!("{}/evidence", VERIF);
+	let dir = format!("{}/evidence", verif_home());
 	let _ = std::fs::create_dir_all(&dir);
 	let path = format!("{}/{}.json", dir, cx.prop);
 	if let Err(e) = std::fs::write(&path, serde_json::to_string_pretty(&ev).unwrap()) {
